@@ -256,6 +256,8 @@ func c14(tier string) []*explore.Scenario {
 	out = append(out, handlerSeqs("C14", tier)...)
 	out = append(out, opInWriteAll("C14", 1)...)
 	out = append(out, foreignContextCancel("C14", "Bidi", 2), foreignContextCancel("C14", "SStream", 1))
+	// finer granularity (a scheduling point after every Unlock as well) on the small core scenarios
+	out = append(out, fineGrained(c14One([][2]string{{"Bidi", "cancel1"}}, 1), c14One([][2]string{{"Unary", "ok"}, {"Bidi", "cancel1"}}, 1))...)
 	return out
 }
 
